@@ -367,8 +367,9 @@ func (w *world) gcKey(commits []kyber.Point, n int, enc []*pvss.PubVerShare) []*
 	return key
 }
 
+// key list of the share-decryption challenge: X, encrypted share, decrypted share V, VG, VH
 func decKey(X kyber.Point, enc, dec *pvss.PubVerShare) []*big.Int {
-	return []*big.Int{dl(X), dl(enc.S.V), dl(dec.P.VG), dl(dec.P.VH)}
+	return []*big.Int{dl(X), dl(enc.S.V), dl(dec.S.V), dl(dec.P.VG), dl(dec.P.VH)}
 }
 
 // newWorld runs the honest protocol and checks the honest clauses
@@ -541,7 +542,7 @@ func (w *world) emitHonest() {
 		inv := new(big.Int).ModInverse(sv(w.x[i]), e.dlog.Q)
 		V := e.mul(inv, dl(w.enc[i].S.V))
 		tb = e.newTable()
-		tb.add([]*big.Int{sv(w.x[i]), e.mul(sv(w.x[i]), V), sv(w.dvs[i]), e.mul(sv(w.dvs[i]), V)})
+		tb.add([]*big.Int{dl(w.X[i]), dl(w.enc[i].S.V), V, sv(w.dvs[i]), e.mul(sv(w.dvs[i]), V)})
 		e.addCase(fmt.Sprintf("(CDec %d %s %s %s %s %s %s %s %s %s (inr %s))", *e.id, q, tb, zP(w.H), zP(w.X[i]), zP(w.sH[i]), zS(w.x[i]), zS(w.gc),
 			wshare(w.enc[i]), zS(w.dvs[i]), wshare(w.dec[i])), true, "dec_share", desc(fmt.Sprintf("DecShare trustee %d", i)))
 	}
@@ -607,7 +608,7 @@ func (w *world) decShareBatch(X, sH []kyber.Point, x kyber.Scalar, gcs []kyber.S
 			if i < len(X) && i < len(sH) && i < len(gcs) && k < len(vs) &&
 				pvss.VerifyEncShare(e.suite, w.H, X[i], sH[i], gcs[i], enc[i]) == nil {
 				V := e.mul(inv, dl(enc[i].S.V))
-				tb.add([]*big.Int{sv(x), e.mul(sv(x), V), sv(vs[k]), e.mul(sv(vs[k]), V)})
+				tb.add([]*big.Int{dl(X[i]), dl(enc[i].S.V), V, sv(vs[k]), e.mul(sv(vs[k]), V)})
 				k++
 			}
 		}
@@ -1221,6 +1222,130 @@ func (w *world) oracleForgery(r *vh.Rng, k int) {
 	}
 }
 
+// Joint forgeries: the prover fixes the commitments first, computes the
+// challenge and then solves a verification equation for a statement element
+// it is free to choose.  This works exactly when that element is not an input
+// of the challenge hash.  Statement elements per proof:
+//   share decryption  DLEQ(G, V; X, xS): G fixed, X and xS given to the prover,
+//     V chosen by the prover (trustee)           -> must be hashed
+//   share encryption  DLEQ(H, X_i; sH_i, sX_i): H, X_i fixed public values,
+//     sH_i (through the commitments) and sX_i chosen by the prover (dealer) -> must be hashed
+func (w *world) oracleJointForgery(r *vh.Rng, k int) {
+	e := w.e
+	G := e.base()
+	P := func() kyber.Point { return e.suite.Point() }
+	S := func() kyber.Scalar { return e.suite.Scalar() }
+	fail := func(key, desc string) {
+		e.rep.Fail(key, desc, w.replay(map[string]interface{}{"position": k, "strategy": desc}))
+	}
+	// ---- cheating trustee k: wrong decrypted share V'
+	xS := w.enc[k].S.V
+	for variant := 0; variant < 3; variant++ {
+		v := e.nonzero(r, false)
+		W := P().Mul(e.nonzero(r, false), nil)
+		VG := P().Mul(v, G)
+		var c kyber.Scalar
+		solve := func(c kyber.Scalar) (kyber.Scalar, kyber.Point) {
+			rr := S().Sub(v, S().Mul(c, w.x[k]))
+			if rr.Equal(e.zero()) {
+				return nil, nil
+			}
+			return rr, P().Mul(S().Inv(rr), P().Sub(W, P().Mul(c, xS)))
+		}
+		name := ""
+		switch variant {
+		case 0: // challenge over (X, xS, VG, VH): the input list before the repair
+			name = "challenge over (X,xS,VG,VH), V solved afterwards"
+			c = e.hashPoints([]kyber.Point{w.X[k], xS, VG, W})
+		case 1: // challenge over the full list with the honest V as a stand-in
+			name = "challenge over (X,xS,V_honest,VG,VH), V solved afterwards"
+			c = e.hashPoints([]kyber.Point{w.X[k], xS, w.dec[k].S.V, VG, W})
+		default: // one round of fixed-point iteration on V
+			name = "challenge over (X,xS,V_0,VG,VH) with V_0 a first solution, V solved again"
+			c0 := e.hashPoints([]kyber.Point{w.X[k], xS, w.dec[k].S.V, VG, W})
+			_, V0 := solve(c0)
+			if V0 == nil {
+				continue
+			}
+			c = e.hashPoints([]kyber.Point{w.X[k], xS, V0, VG, W})
+		}
+		rr, Vp := solve(c)
+		if rr == nil || Vp.Equal(w.dec[k].S.V) {
+			continue
+		}
+		fake := &pvss.PubVerShare{S: share.PubShare{I: w.enc[k].S.I, V: Vp}, P: dleq.Proof{C: c, R: rr, VG: VG, VH: W}}
+		what := fmt.Sprintf("joint forgery of decrypted share %d: %s", k, name)
+		if w.verDec(w.X[k], w.enc[k], fake, what) == 0 {
+			fail("pvss.VerifyDecShare/forged-share-accepted", what)
+		}
+		dec := append([]*pvss.PubVerShare{}, w.dec...)
+		dec[k] = fake
+		sel := []int{k}
+		for _, i := range shuffle(r, seq(w.n)) {
+			if i != k && len(sel) < w.t {
+				sel = append(sel, i)
+			}
+		}
+		for _, idx := range [][]int{shuffle(r, sel), seq(w.n)} {
+			x, en, de := pick(idx, w.X, w.enc, dec)
+			if p, _ := w.recover(x, en, de, w.t, what, true); p != nil && !p.Equal(w.want) {
+				fail("pvss.RecoverSecret/wrong-secret-from-verified-shares", what+fmt.Sprintf(" positions %v", idx))
+			}
+		}
+	}
+	// ---- cheating dealer: wrong encrypted share sX' for trustee k, all proofs under one jointly computed challenge
+	pri := share.NewPriPoly(e.suite, uint32(w.t), w.secret, vh.NewSeqStream(r.Bytes(16)))
+	pub := pri.Commit(w.H)
+	ps := pri.Shares(uint32(w.n))
+	vs := make([]kyber.Scalar, w.n)
+	enc := make([]*pvss.PubVerShare, w.n)
+	var sHs, sXs, VGs, VHs []kyber.Point
+	W := P().Mul(e.nonzero(r, false), nil)
+	for i := 0; i < w.n; i++ {
+		vs[i] = e.nonzero(r, false)
+		sHs = append(sHs, P().Mul(ps[i].V, w.H))
+		sXs = append(sXs, P().Mul(ps[i].V, w.X[i]))
+		VGs = append(VGs, P().Mul(vs[i], w.H))
+		if i == k {
+			VHs = append(VHs, W)
+		} else {
+			VHs = append(VHs, P().Mul(vs[i], w.X[i]))
+		}
+	}
+	all := append(append(append(append([]kyber.Point{}, sHs...), sXs...), VGs...), VHs...)
+	c := e.hashPoints(all)
+	if c.Equal(e.zero()) {
+		return
+	}
+	for i := 0; i < w.n; i++ {
+		ri := S().Sub(vs[i], S().Mul(c, ps[i].V))
+		sX := sXs[i]
+		if i == k {
+			// solve VH = r X_k + c sX' for sX'
+			sX = P().Mul(S().Inv(c), P().Sub(W, P().Mul(ri, w.X[k])))
+		}
+		enc[i] = &pvss.PubVerShare{S: share.PubShare{I: uint32(i), V: sX}, P: dleq.Proof{C: c.Clone(), R: ri, VG: VGs[i], VH: VHs[i]}}
+	}
+	if enc[k].S.V.Equal(sXs[k]) {
+		return
+	}
+	what := fmt.Sprintf("joint forgery of encrypted share %d: commitments first, challenge over the stand-in share, sX solved afterwards", k)
+	_, E, _ := w.encBatch(w.X, pub, enc, what)
+	if contains(E, enc[k]) {
+		fail("pvss.VerifyEncShareBatch/forged-share-accepted", what)
+	}
+	// the verifier's own challenge over what it received
+	var pts []kyber.Point
+	pts = append(pts, sHs...)
+	for _, s := range enc {
+		pts = append(pts, s.S.V)
+	}
+	pts = append(append(pts, VGs...), VHs...)
+	if w.verEnc(w.X[k], pub.Eval(uint32(k)).V, e.hashPoints(pts), enc[k], what) == 0 {
+		fail("pvss.VerifyEncShare/forged-share-accepted", what)
+	}
+}
+
 func seq(n int) []int {
 	out := make([]int, n)
 	for i := range out {
@@ -1434,7 +1559,7 @@ func main() {
 	o := vh.ParseFlags()
 	rng := vh.NewRng(o.Seed)
 	rep := vh.NewReport("C13", o.Seed, o.Tier)
-	rep.Rule = "dlog group (order 2^61-1), model correspondence: every (n,t) with 2<=n<=6 (thorough 7), 1<=t<=n, secrets random/0/1/-1, exact EncShares output (shares, proofs, commitments) from replayed randomness, computeCommitments, global challenge, DecShare, VerifyEncShare/VerifyDecShare verdict classes, batch results and RecoverSecret result for: all ordered subsets of decrypted shares for n<=4 (all subsets + random orders above), every single-field mutation (I,V,C,R,VG,VH; +1/zero-or-max/random/other trustee's value) and cross-trustee swap (proof, share, whole position, key) of encrypted and decrypted shares at up to 3 positions, altered keys, challenge and coefficient commitments, repeated shares, unequal lengths; NewDLEQProof/Batch/Verify on edge and random inputs with every single-field mutation. The hash oracle of the model is a table computed by the harness independently. Oracles: the same clauses evaluated on the implementation over the dlog group, Ed25519 and P-256 (n up to 10). distinct = distinct canonical case text; non-trivial = rejected inputs, recoveries with t>=2 from proper subsets or mutated lists, proofs"
+	rep.Rule = "dlog group (order 2^61-1), model correspondence: every (n,t) with 2<=n<=6 (thorough 7), 1<=t<=n, secrets random/0/1/-1, exact EncShares output (shares, proofs, commitments) from replayed randomness, computeCommitments, global challenge, DecShare, VerifyEncShare/VerifyDecShare verdict classes, batch results and RecoverSecret result for: all ordered subsets of decrypted shares for n<=4 (all subsets + random orders above), simulated and joint forgeries (commitments first, challenge, then a statement element solved from the verification equation: decrypted share V by a cheating trustee, encrypted share sX by a cheating dealer), every single-field mutation (I,V,C,R,VG,VH; +1/zero-or-max/random/other trustee's value) and cross-trustee swap (proof, share, whole position, key) of encrypted and decrypted shares at up to 3 positions, altered keys, challenge and coefficient commitments, repeated shares, unequal lengths; NewDLEQProof/Batch/Verify on edge and random inputs with every single-field mutation. The hash oracle of the model is a table computed by the harness independently. Oracles: the same clauses evaluated on the implementation over the dlog group, Ed25519 and P-256 (n up to 10). distinct = distinct canonical case text; non-trivial = rejected inputs, recoveries with t>=2 from proper subsets or mutated lists, proofs"
 	cf := &vh.CaseFile{Header: "From Kyber Require Import PVSS.PvssSM PVSS.PvssRun.", Type: "case", Runner: "mismatches"}
 	id := 0
 	kindsAll := []int{0, 1, 2, 3}
@@ -1489,11 +1614,13 @@ func main() {
 				w.oracleEncMutations(r, pos, kinds)
 				w.oracleDecMutations(r, pos, kinds)
 				w.oracleForgery(r, pos[0])
+				w.oracleJointForgery(r, pos[0])
 				// a second world with other secret kind, honest cases only
 				w2 := newWorld(e, r, n, t, n+t+int(o.Seed)+1+r.Intn(3), "corr2")
 				if w2 != nil {
 					w2.emitHonest()
 					w2.oracleSubsets(r, 0, 1, 4)
+					w2.oracleJointForgery(r, r.Intn(n))
 				}
 			}
 		}
@@ -1562,6 +1689,13 @@ func main() {
 					w.oracleEncMutations(r, pos, kinds)
 					w.oracleDecMutations(r, pos, kinds)
 					w.oracleForgery(r, pos[0])
+					ks := shuffle(r, seq(n))
+					if n > 4 && !o.Thorough {
+						ks = ks[:2]
+					}
+					for _, k := range ks {
+						w.oracleJointForgery(r, k)
+					}
 				}
 			}
 			e := newEnv(gk, fmt.Sprintf("c13/or/dleq/%d/%d/%d", o.Seed, gk, round), rep, cf, &id, false)
